@@ -4,7 +4,9 @@
    handle_data is abstract in the Python class.  The model gives it the shape every tunnel
    implementation must have (examples/https_connect_tunnel.py): once the upstream is connected
    client bytes are queued for it unchanged; before that the request oracle [req ev] decides
-   (RProxy = CONNECT accepted: connect_upstream() and queue the acknowledgement; RError = queue
+   (RProxy = CONNECT accepted: connect_upstream() and queue the acknowledgement — bytes of the same
+   segment behind the CONNECT stay in request.buffer and are DROPPED by the example class, so [rem] is
+   ignored here; RError = queue
    these pieces and return True; RIncomplete = wait; RRaise = exception).
    No try/except anywhere in tcp_tunnel.py: every exception of recv/flush escapes handle_events. *)
 From PM Require Import Lib.Bytes Net.Conn Net.Handler.
@@ -16,10 +18,10 @@ Definition tunnel_handle_data (c : cfg) (ev : event) (s : hstate) (data : bytes)
   | None =>
       if req_complete s then (s, Some false) else
       match req ev with
-      | RProxy _ _ =>
+      | RProxy _ _ _ =>
           (client_queue (ack c) (set_upstream (Some new_conn) (set_request true PProxy true s)), Some false)
       | RError pieces => (client_queue_all pieces (set_request true PNone false s), Some true)
-      | RServe pieces => (client_queue_all pieces (set_request true PNone false s), Some false)
+      | RServe pieces _ => (client_queue_all pieces (set_request true PNone false s), Some false)
       | RIncomplete => (s, Some false)
       | RRaise => (s, None)
       end
